@@ -38,7 +38,7 @@ def generate(rng: random.Random, tier: str):
     for _ in range(150 if thorough else 36):
         n = rng.randint(4, 12 if thorough else 9)
         cases.append({'kind': 'slice', 'shape': [n, rng.randint(4, n), rng.randint(4, n)] if rng.random() < 0.4 else [n, n, n],
-                      'profile': rng.choice(['rect', 'rect', 'smoothed', 'gauss']), 'fwhm': rng.choice([1.0, 2.0, 3.0, 4.0, 6.0, 8.0]),
+                      'profile': rng.choice(['rect', 'rect', 'smoothed', 'gauss', 'asym_neg', 'asym_pos']), 'fwhm': rng.choice([1.0, 2.0, 3.0, 4.0, 6.0, 8.0]),
                       'rotation': rng.choice(['identity', 'identity', 'axis', 'generic']), 'shift': rng.choice([0.0, 0.0, 1.0, -2.0, 0.5]),
                       'seed': rng.randrange(1 << 30)})
     for _ in range(300 if thorough else 60):
@@ -50,8 +50,24 @@ def generate(rng: random.Random, tier: str):
     return cases
 
 
+class Shifted(torch.nn.Module):
+    """an asymmetric slice profile (e.g. a measured one): the inner profile centred at `centre` instead of 0"""
+
+    def __init__(self, inner, centre):
+        super().__init__()
+        self.inner, self.centre = inner, centre
+
+    def forward(self, x):
+        return self.inner(x - self.centre)
+
+
 def make_profile(kind, fwhm):
     from mrpro.utils.slice_profiles import SliceGaussian, SliceSmoothedRectangular
+
+    if kind in ('asym_neg', 'asym_pos'):
+        # support reaches further to negative (positive) positions than to the other side
+        # (the library requires a positive profile on (-0.5, 0.5): the slice centre stays 0.8 voxels inside the plateau)
+        return Shifted(SliceSmoothedRectangular(fwhm, 0.3), (-1 if kind == 'asym_neg' else 1) * max(0.0, fwhm / 2 - 0.8))
 
     if kind == 'rect':
         return SliceSmoothedRectangular(fwhm, 0.0)
